@@ -61,3 +61,9 @@ for d in sorted(glob.glob(os.path.join(ROOT, "seeded", "*"))):
         out += " (no longer a violation on the repaired tree: see meta.json)"
     props = m["property"] if isinstance(m["property"], str) else ",".join(m["property"])
     print("| %s | %s | %s | %s |" % (sid, props, m.get("needs_to_manifest", ""), out))
+
+print("\n### 11.8 Known findings (genuine defects recorded, not repaired; `known_findings.json`)\n")
+for f in kf["findings"]:
+    print("* **%s** `%s` - %s\n  Example: `%s`.\n  Theorems: %s (the statement that fails) / %s (what holds)." % (
+        f["property"], f["signature"], f["what_fails"], f["example"].replace("`", "'")[:400],
+        f.get("refuted_theorem", "-"), f.get("partial_theorem", "-")))
